@@ -3,7 +3,7 @@
 # (scratch worktree + scratch copy of /verif).  Any VIOLATION line is a false alarm unless it ends with no-failing-input-found.
 patch=$(readlink -f "$1"); shift; checks="$@"
 [ -z "$checks" ] && checks="C01 C02 C03 C04 C05 C06 C07 C08 C09 C10 C11 C12 C13 C14 C15 C16 C17 C18 C19 C20"
-tag=$$; wt=/tmp/harmrun_$tag/repo; vc=/tmp/harmrun_$tag/verif; mkdir -p /tmp/harmrun_$tag
+tag=$$; wt=/tmp/harmrun_$tag/repo_$tag; vc=/tmp/harmrun_$tag/verif; mkdir -p /tmp/harmrun_$tag
 git -C /repo worktree add -q --detach $wt HEAD || exit 2
 cp /repo/gemclus/tree/_utils.cpython-312-x86_64-linux-gnu.so $wt/gemclus/tree/ 2>/dev/null
 (cd $wt && git apply "$patch") || { echo "patch does not apply"; git -C /repo worktree remove --force $wt; rm -rf /tmp/harmrun_$tag; exit 2; }
